@@ -84,7 +84,7 @@ def run_case(rng, tier, res):
         res.bin("register_size_not_multiple_of_8")
 
     # ---------------------------------------------------------------- register map
-    nregs = rng.randint(3, 8)
+    nregs = min(rng.randint(3, 8), space - 2)
     addrs = []
     while len(addrs) < nregs:
         r = rng.random()
@@ -156,6 +156,9 @@ def run_case(rng, tier, res):
         else:
             a = rng.choice([0, space - 1, 1])
         write = rng.random() < 0.55
+        earlier = [t["addr"] for t in script if t["write"] and t["abort"] is None and regs.get(t["addr"], {}).get("kind") in ("rw", "rw_narrow")]
+        if earlier and rng.random() < 0.3:
+            a, write = rng.choice(earlier), False
         r = rng.random()
         if r < 0.5:
             v = rng.getrandbits(rsz)
@@ -235,6 +238,12 @@ def run_case(rng, tier, res):
             mech = KNOWN
         res.violation(mech, detail)
 
+    src_list = [(a, m) for a, m in regs.items() if m.get("src") is not None]
+    strobe_list = list(strobes.values())
+    reg_list = [m for m in regs.values() if m.get("sig") is not None]
+    cnt = {"strobe": 0, "reg": 0}
+    get = b.get
+
     def ctx():
         return "context=%s asz=%d rsz=%d" % (st["context"], asz, rsz)
 
@@ -242,9 +251,9 @@ def run_case(rng, tier, res):
         c = b.cycle
         sck, sdi, sdo, cs = b.get(spi.sck), b.get(spi.sdi), b.get(spi.sdo), b.get(spi.cs)
         # harness-driven read sources: remember when they changed
-        for a, m in regs.items():
-            if m.get("src") is not None:
-                v = b.get(m["src"])
+        for a, m in src_list:
+            if True:
+                v = get(m["src"])
                 if v != st["src_prev"].get(a, 0):
                     st["src_prev"][a] = v
                     st["src_change"][a] = c
@@ -359,9 +368,24 @@ def run_case(rng, tier, res):
                 res.bin("extra_clocks_after_word")
             st["n"] = n + 1
         st["prev_sck"], st["prev_sdo"] = sck, sdo
+        # ---- fast path: no strobe high, nothing outstanding, every register equal to the model
+        cnt["strobe"] += len(strobe_list)
+        cnt["reg"] += len(reg_list)
+        if not st["pending_strobe"] and not st["pending_value"]:
+            quiet = True
+            for sig in strobe_list:
+                if get(sig):
+                    quiet = False
+                    break
+            if quiet:
+                for m in reg_list:
+                    if get(m["sig"]) != m["value"]:
+                        quiet = False
+                        break
+                if quiet:
+                    return
         # ---- write strobes
         for a, sig in strobes.items():
-            res.event("strobe_cycles_checked")
             p = st["pending_strobe"].get(a)
             if b.get(sig):
                 if p is None:
@@ -394,7 +418,6 @@ def run_case(rng, tier, res):
         for a, m in regs.items():
             if m.get("sig") is None:
                 continue
-            res.event("register_cycles_checked")
             v = b.get(m["sig"])
             p = st["pending_value"].get(a)
             if p is not None:
@@ -510,5 +533,7 @@ def run_case(rng, tier, res):
     for a, p in st["pending_value"].items():
         if regs[a]["value"] != p["new"]:
             viol("write_not_applied", "end of case: register %#x never took %#x" % (a, p["new"]))
+    res.event("strobe_cycles_checked", cnt["strobe"])
+    res.event("register_cycles_checked", cnt["reg"])
     res.cycles = b.cycle
     res.nontrivial = st["had_write"] and st["had_readback"] and st["had_abort"]
